@@ -226,8 +226,13 @@ impl Property for C16 {
                     .collect()
             })
             .collect();
-        let pool: [&[u8]; 10] = [b"", b"a", b"ab", b"b", "é".as_bytes(), &[0xc3], &[0xe2, 0x82], "€".as_bytes(), &[0xff, 0x61], &[0xf0, 0x9f, 0x98, 0x80]];
-        let strings = (0..g.below(4)).map(|_| if g.chance(2, 3) { pool[g.below(10) as usize].to_vec() } else { (0..g.below(6)).map(|_| g.below(256) as u8).collect() }).collect();
+        // boundary-focused byte strings: lone / stray continuation bytes, truncated and overlong sequences, surrogates, > U+10FFFF
+        let pool: [&[u8]; 24] = [
+            b"", b"a", b"ab", b"b", "\u{e9}".as_bytes(), &[0xc3], &[0xe2, 0x82], "\u{20ac}".as_bytes(), &[0xff, 0x61], &[0xf0, 0x9f, 0x98, 0x80],
+            &[0x80], &[0x69, 0x64, 0x80], &[0x61, 0x80, 0x62], &[0x7f, 0x80], &[0xbf], &[0xc0, 0x80], &[0xc1, 0xbf], &[0xe0, 0x80, 0x80],
+            &[0xed, 0xa0, 0x80], &[0xf4, 0x90, 0x80, 0x80], &[0xf5], &[0xf0, 0x9f, 0x98], &[0x7f], &[0xc2, 0x80],
+        ];
+        let strings = (0..g.below(5)).map(|_| if g.chance(3, 4) { pool[g.below(24) as usize].to_vec() } else { (0..g.below(6)).map(|_| if g.chance(1, 2) { 0x7e + g.below(4) as u8 } else { g.below(256) as u8 }).collect() }).collect();
         (knobs, serde_json::to_value(Work { ctor, len, fill: g.next(), threads, early_drop: g.chance(1, 2), strings }).unwrap())
     }
     fn execute(&self, case: &Case) -> Outcome {
